@@ -262,6 +262,10 @@ fn find_words_unicode_break_properties<'a>(
 
     let stripped = strip_ansi_escape_sequences(line);
     let mut opportunities = unicode_linebreak::linebreaks(&stripped)
+        // Remove final break opportunity, we will add it below using
+        // &line[start..]; This ensures that we correctly include a
+        // trailing ANSI escape sequence.
+        .filter(|(idx, _)| *idx < stripped.len())
         .filter(|(idx, _)| {
             #[allow(clippy::match_like_matches_macro)]
             match &stripped[..*idx].chars().next_back() {
@@ -278,11 +282,6 @@ fn find_words_unicode_break_properties<'a>(
         })
         .collect::<Vec<_>>()
         .into_iter();
-
-    // Remove final break opportunity, we will add it below using
-    // &line[start..]; This ensures that we correctly include a
-    // trailing ANSI escape sequence.
-    opportunities.next_back();
 
     let mut start = 0;
     Box::new(std::iter::from_fn(move || {
